@@ -1,4 +1,415 @@
-//! C17 — outline (stub)
+//! C17 — drawn-outline preservation of the per-glyph rewrite (`klippa/src/glyf_loca.rs subset_glyph`), as DECODED by
+//! read-fonts: the statements of `Props/C17Outline.lean` on the real code.
+//!
+//! For glyph records (random simple / composite records with every flag / delta encoding, padding, truncation,
+//! corruption; hand-made edge records: repeat runs that overshoot the point count, flag arrays longer than the point
+//! count, WE_HAVE_INSTRUCTIONS on a component that is not the last, records that end exactly after the coordinates …;
+//! every glyph record of synthetic and corpus fonts), flag combinations and glyph maps:
+//!  * correspondence `decode`: the Lean reader model's decode of a record (`c17.decode`: contours, end points, bounding box,
+//!    `points()`, `read_points_fast`, components with anchors / transforms) against read-fonts on the same bytes — original
+//!    records AND the records klippa emits;
+//!  * correspondence `decsub`: both sides of `subset_glyph_decodes_equal` (`c17.decsub`: decode of the model's rewrite #
+//!    glyph-id renaming of the original's decode) against read-fonts' decode of the REAL rewrite and a renaming computed here;
+//!  * oracles (model independent): `subset-glyph-decodes-equal` — whatever read-fonts decodes from the real rewrite equals
+//!    what it decodes from the original record, component glyph ids mapped (flags: WE_HAVE_INSTRUCTIONS dropped under
+//!    NO_HINTING, OVERLAP_COMPOUND on the first component under SET_OVERLAPS); `decodable-glyph-not-emptied` — a glyph that
+//!    read-fonts can decode (`read_points_fast` succeeds with >= 1 point / every component has an image) is not written empty.
 use fv_harness::common::*;
+use klippa::{verif_hooks as vh, SubsetFlags};
+use read_fonts::tables::glyf::{Anchor, Glyph, PointFlags};
+use read_fonts::types::Point;
+use read_fonts::{FontData, FontRead, FontRef, TableProvider};
 
-pub fn run(_cfg: &Config, _s: &mut Session, _r: &mut Rng) {}
+use super::{encode_composite, flag_combo, pairs_str, rand_comp, rand_simple, Comp, F_NO_HINTING, F_SET_OVERLAPS};
+
+fn list_or(v: Vec<String>) -> String {
+    if v.is_empty() {
+        "-".into()
+    } else {
+        v.join(" ")
+    }
+}
+
+#[derive(Clone, Debug, PartialEq)]
+struct CompD {
+    flags: u16,
+    gid: u32,
+    anchor: String,
+    t: [i16; 4],
+}
+
+#[derive(Clone, Debug, PartialEq)]
+enum Dec {
+    Err,
+    Simple { head: String, ends: Vec<u16>, pts: Vec<(i32, i32, u8)>, fast: Option<Vec<(i32, i32, u8)>>, flag_bytes_le_points: bool, overshoot: bool },
+    Composite { bbox: String, comps: Vec<CompD> },
+}
+
+/// number of flag bytes the checked reader finds; Err(true): a repeat run overshoots the point count (FreeType,
+/// `points()` and klippa reject that, `read_points_fast` clamps the run), Err(false): the flags end too early
+fn flag_len(data: &[u8], npts: usize) -> Result<usize, bool> {
+    let mut i = 0usize;
+    let mut left = npts;
+    while left > 0 {
+        let f = *data.get(i).ok_or(false)?;
+        i += 1;
+        let mut rep = 1usize;
+        if f & 8 != 0 {
+            rep = *data.get(i).ok_or(false)? as usize + 1;
+            i += 1;
+        }
+        if rep > left {
+            return Err(true);
+        }
+        left -= rep;
+    }
+    Ok(i)
+}
+
+fn decode(bytes: &[u8]) -> Dec {
+    let g = match catch(|| Glyph::read(FontData::new(bytes))) {
+        Ok(Ok(g)) => g,
+        _ => return Dec::Err,
+    };
+    match g {
+        Glyph::Simple(g) => {
+            let ends: Vec<u16> = g.end_pts_of_contours().iter().map(|e| e.get()).collect();
+            let pts: Vec<(i32, i32, u8)> = g.points().map(|p| (p.x as i32, p.y as i32, p.on_curve as u8)).collect();
+            let n = g.num_points();
+            let mut pbuf = vec![Point::<i32>::default(); n];
+            let mut fbuf = vec![PointFlags::default(); n];
+            let fast = match g.read_points_fast(&mut pbuf, &mut fbuf) {
+                Ok(()) => Some(pbuf.iter().zip(fbuf.iter()).map(|(p, f)| (p.x, p.y, f.is_on_curve() as u8)).collect()),
+                Err(_) => None,
+            };
+            let fl = flag_len(g.glyph_data(), n);
+            Dec::Simple {
+                head: format!("{} {} {} {} {}", g.number_of_contours(), g.x_min(), g.y_min(), g.x_max(), g.y_max()),
+                ends,
+                pts,
+                fast,
+                flag_bytes_le_points: fl.map(|l| l <= n).unwrap_or(false),
+                overshoot: fl == Err(true),
+            }
+        }
+        Glyph::Composite(g) => {
+            let comps = g
+                .components()
+                .map(|c| CompD {
+                    flags: c.flags.bits(),
+                    gid: c.glyph.to_u32(),
+                    anchor: match c.anchor {
+                        Anchor::Offset { x, y } => format!("o {x} {y}"),
+                        Anchor::Point { base, component } => format!("p {base} {component}"),
+                    },
+                    t: [c.transform.xx.to_bits(), c.transform.yx.to_bits(), c.transform.xy.to_bits(), c.transform.yy.to_bits()],
+                })
+                .collect();
+            Dec::Composite { bbox: format!("{} {} {} {}", g.x_min(), g.y_min(), g.x_max(), g.y_max()), comps }
+        }
+    }
+}
+
+fn fmt_pts(v: &[(i32, i32, u8)]) -> String {
+    list_or(v.iter().map(|(x, y, o)| format!("{x} {y} {o}")).collect())
+}
+
+fn fmt_dec(d: &Dec) -> String {
+    match d {
+        Dec::Err => "err".into(),
+        Dec::Simple { head, ends, pts, fast, .. } => format!(
+            "S {head} E {} P {} F {}",
+            join(ends),
+            fmt_pts(pts),
+            match fast {
+                None => "none".to_string(),
+                Some(f) => fmt_pts(f),
+            }
+        ),
+        Dec::Composite { bbox, comps } => format!(
+            "C {bbox} K {}",
+            list_or(comps.iter().map(|c| format!("{} {} {} {} {} {} {}", c.flags, c.gid, c.anchor, c.t[0], c.t[1], c.t[2], c.t[3])).collect())
+        ),
+    }
+}
+
+/// the glyph-id renaming of a decoded glyph, computed here from the request (flags, glyph map); None = a component
+/// without image
+fn rename(d: &Dec, flags: u16, map: &[(u32, u32)]) -> Option<Dec> {
+    match d {
+        Dec::Composite { bbox, comps } => {
+            let mut out = vec![];
+            for (k, c) in comps.iter().enumerate() {
+                let new = map.iter().find(|(o, _)| *o == c.gid)?.1;
+                let mut f = c.flags;
+                if flags & F_NO_HINTING != 0 {
+                    f &= !0x0100;
+                }
+                if flags & F_SET_OVERLAPS != 0 && k == 0 {
+                    f |= 0x0400;
+                }
+                out.push(CompD { flags: f, gid: new & 0xFFFF, anchor: c.anchor.clone(), t: c.t });
+            }
+            Some(Dec::Composite { bbox: bbox.clone(), comps: out })
+        }
+        other => Some(other.clone()),
+    }
+}
+
+struct Stats {
+    n: usize,
+}
+
+fn one_record(s: &mut Session, st: &mut Stats, label: &str, rec: &[u8], flags: u16, map: &[(u32, u32)]) {
+    st.n += 1;
+    let d0 = decode(rec);
+    s.case("decode", format!("c17.decode {}", hex(rec)), fmt_dec(&d0));
+    let plan = vh::plan_with_glyph_map(map, SubsetFlags::from(flags));
+    let out = catch(|| vh::subset_glyph_bytes(rec, &plan));
+    let input = || format!("font={label} flags={flags:#06x} map=[{}] record={}", pairs_str(map), hex(rec));
+    let renamed = rename(&d0, flags, map);
+    let rhs = match (&d0, &renamed) {
+        (Dec::Err, _) | (_, None) => "none".to_string(),
+        (_, Some(r)) => fmt_dec(r),
+    };
+    let lhs = match &out {
+        Err(_) => "trap".to_string(),
+        Ok(Err(_)) => "readerr".to_string(),
+        Ok(Ok(b)) if b.is_empty() => "empty".to_string(),
+        Ok(Ok(b)) => {
+            let d1 = decode(b);
+            // the emitted record is one more sample for the reader correspondence
+            s.case("decode", format!("c17.decode {}", hex(b)), fmt_dec(&d1));
+            fmt_dec(&d1)
+        }
+    };
+    s.case("decsub", format!("c17.decsub {} M {} D {}", flags, pairs_str(map), hex(rec)), format!("{lhs} # {rhs}"));
+    s.oracle("subset-glyph-no-panic", out.is_ok(), input, || "panic".into());
+    let Ok(Ok(b)) = out else { return };
+    if !b.is_empty() {
+        let d1 = decode(&b);
+        let ok = match (&d0, &d1) {
+            (Dec::Simple { head: h0, ends: e0, pts: p0, fast: f0, flag_bytes_le_points: le, .. }, Dec::Simple { head: h1, ends: e1, pts: p1, fast: f1, .. }) => {
+                s.count(if *le { "outline:simple:written:flag-bytes<=points" } else { "outline:simple:written:flag-bytes>points" });
+                h0 == h1 && e0 == e1 && p0 == p1 && (!*le || f0 == f1)
+            }
+            (Dec::Composite { .. }, Dec::Composite { .. }) => {
+                s.count("outline:composite:written");
+                renamed.as_ref() == Some(&d1)
+            }
+            _ => false,
+        };
+        s.oracle("subset-glyph-decodes-equal", ok, input, || format!("original {} (renamed {}) subset {}", fmt_dec(&d0), rhs, fmt_dec(&d1)));
+    } else {
+        // written empty: only acceptable if read-fonts cannot make a drawable glyph of the record either
+        match &d0 {
+            Dec::Simple { ends, fast, pts, overshoot, .. } => {
+                let drawable = !ends.is_empty() && fast.as_ref().map(|f| !f.is_empty()).unwrap_or(false);
+                s.count(if drawable { "outline:simple:emptied:fast-reader-decodes" } else { "outline:simple:emptied:undecodable" });
+                if drawable && *overshoot && pts.is_empty() {
+                    // the one class where the lenient reader draws something the strict readers (and klippa, like
+                    // HarfBuzz's trim_padding) reject: a repeat run longer than the points that are left
+                    s.count("outline:simple:emptied:repeat-overshoot");
+                    s.oracle("repeat-overshoot-glyph-not-emptied", false, input, || {
+                        format!("read_points_fast decodes {} points of the original (points() rejects the record: a repeat run overshoots the point count), the rewrite is empty", fast.as_ref().map(|f| f.len()).unwrap_or(0))
+                    });
+                } else {
+                    s.oracle("decodable-glyph-not-emptied", !drawable, input, || {
+                        format!("read_points_fast decodes {} points of the original (points() yields {}), the rewrite is empty", fast.as_ref().map(|f| f.len()).unwrap_or(0), pts.len())
+                    });
+                }
+            }
+            Dec::Composite { comps, .. } => {
+                // complete = read-fonts read every record up to one without MORE_COMPONENTS
+                let complete = comps.last().map(|c| c.flags & 0x20 == 0).unwrap_or(false);
+                let drawable = complete && renamed.is_some();
+                s.count(if drawable { "outline:composite:emptied:all-components-mapped" } else { "outline:composite:emptied:unmapped-or-incomplete" });
+                s.oracle("decodable-glyph-not-emptied", !drawable, input, || {
+                    format!("all {} components decode and have images, the rewrite is empty: {}", comps.len(), fmt_dec(&d0))
+                });
+            }
+            Dec::Err => {}
+        }
+    }
+}
+
+fn simple_header(nc: u16, ends: &[u16], instr: &[u8]) -> Vec<u8> {
+    let mut v = vec![];
+    v.extend_from_slice(&nc.to_be_bytes());
+    for b in [0i16, 0, 500, 500] {
+        v.extend_from_slice(&b.to_be_bytes());
+    }
+    for e in ends {
+        v.extend_from_slice(&e.to_be_bytes());
+    }
+    v.extend_from_slice(&(instr.len() as u16).to_be_bytes());
+    v.extend_from_slice(instr);
+    v
+}
+
+/// hand-made edge records: (label, record)
+fn edge_records() -> Vec<(&'static str, Vec<u8>)> {
+    let mut v: Vec<(&'static str, Vec<u8>)> = vec![];
+    // 4 points, flags 0x37 (short positive x/y, on curve) x 4 as one repeat run, exact fit
+    let mut g = simple_header(1, &[3], &[]);
+    g.extend_from_slice(&[0x3F, 3, 1, 2, 3, 4, 5, 6, 7, 8]);
+    v.push(("exact-fit", g.clone()));
+    // the same + padding
+    let mut p = g.clone();
+    p.extend_from_slice(&[0, 0, 0]);
+    v.push(("padded", p));
+    // repeat run overshoots the point count (5 flags for 4 points): FreeType / points() reject, read_points_fast clamps
+    let mut o = simple_header(1, &[3], &[]);
+    o.extend_from_slice(&[0x3F, 4, 1, 2, 3, 4, 5, 6, 7, 8, 0, 0]);
+    v.push(("repeat-overshoots", o));
+    // second run overshoots
+    let mut o2 = simple_header(1, &[3], &[]);
+    o2.extend_from_slice(&[0x37, 0x3F, 5, 1, 2, 3, 4, 5, 6, 7, 8, 0, 0]);
+    v.push(("repeat-overshoots-2", o2));
+    // flag array longer than the point count: every point as a repeat run of count 0 (2 flag bytes per point)
+    let mut w = simple_header(1, &[2], &[]);
+    w.extend_from_slice(&[0x3F, 0, 0x3F, 0, 0x3F, 0, 1, 2, 3, 4, 5, 6]);
+    v.push(("flag-bytes>points", w.clone()));
+    let mut w2 = w.clone();
+    w2.extend_from_slice(&[9, 9, 9, 9, 9, 9, 9, 9]);
+    v.push(("flag-bytes>points+padding", w2));
+    // flags == points exactly, with a count-0 repeat in the middle compensated by a longer run
+    let mut w3 = simple_header(1, &[3], &[]);
+    w3.extend_from_slice(&[0x3F, 0, 0x3F, 2, 1, 2, 3, 4, 5, 6, 7, 8, 0]);
+    v.push(("flag-bytes==points", w3));
+    // coordinates cut short by one byte
+    let mut c = simple_header(1, &[3], &[]);
+    c.extend_from_slice(&[0x3F, 3, 1, 2, 3, 4, 5, 6, 7]);
+    v.push(("coords-truncated", c));
+    // two contours, long deltas, off-curve points, instructions
+    let mut t = simple_header(2, &[1, 3], &[0xB0, 0x01, 0x2F]);
+    t.extend_from_slice(&[0x01, 0x00, 0x21, 0x11, 0, 100, 0xFF, 0x38, 1, 0, 0, 50, 0xFF, 0xCE, 0x7F, 0xFF, 0, 0]);
+    v.push(("two-contours-long-deltas", t));
+    // no contours at all
+    v.push(("zero-contours", simple_header(0, &[], &[])));
+    // composite: WE_HAVE_INSTRUCTIONS on the first of two components, no instruction bytes, record ends after the last component
+    let c1 = Comp { gid: 1, extra: 0, words: false, dx: 5, dy: 6, xf: 0, instr_flag: true };
+    let c2 = Comp { gid: 2, extra: 0x200, words: true, dx: -300, dy: 7, xf: 1, instr_flag: false };
+    v.push(("composite-stray-instr-flag", encode_composite(&[c1, c2], None)));
+    // the same with two bytes of padding (read as instruction length 0)
+    let mut cp = encode_composite(&[c1, c2], None);
+    cp.extend_from_slice(&[0, 0]);
+    v.push(("composite-stray-instr-flag+pad", cp));
+    // instruction flag on the last component, instructions present
+    let c3 = Comp { instr_flag: true, ..c2 };
+    let c1n = Comp { instr_flag: false, ..c1 };
+    v.push(("composite-instr", encode_composite(&[c1n, c3], Some(&[1, 2, 3]))));
+    // instruction flag on the last component, but the record ends there
+    v.push(("composite-instr-missing", encode_composite(&[c1n, c3], None)));
+    // last component cut in the middle of its transform
+    let mut cut = encode_composite(&[c1n, Comp { xf: 3, ..c2 }], None);
+    cut.truncate(cut.len() - 3);
+    v.push(("composite-last-cut", cut));
+    // point-number anchors (ARGS_ARE_XY_VALUES clear) in bytes and words
+    let mut pa = encode_composite(&[c1n, c2], None);
+    pa[11] &= !0x02; // first component: flags low byte
+    let off2 = 10 + 6;
+    pa[off2 + 1] &= !0x02;
+    v.push(("composite-point-anchors", pa));
+    v
+}
+
+pub fn run(cfg: &Config, s: &mut Session, r: &mut Rng) {
+    let th = cfg.thorough();
+    let mut st = Stats { n: 0 };
+    let full_map: Vec<(u32, u32)> = (0..12u32).map(|g| (g, g + 3)).collect();
+    // 1. edge records x every flag combination of NO_HINTING / SET_OVERLAPS
+    for (label, rec) in edge_records() {
+        for flags in [0u16, F_NO_HINTING, F_SET_OVERLAPS, F_NO_HINTING | F_SET_OVERLAPS] {
+            one_record(s, &mut st, &format!("unit:{label}"), &rec, flags, &full_map);
+        }
+    }
+    // 2. random records (same families as glyph_unit in c17.rs)
+    let count = if th { 60_000 } else { 2_500 };
+    for _ in 0..count {
+        let composite = r.chance(2, 5);
+        let mut rec = if composite {
+            let k = r.range(1, 5) as usize;
+            let mut comps: Vec<Comp> = (0..k).map(|_| { let g = r.below(12) as u16; rand_comp(r, g) }).collect();
+            let with_instr = r.chance(1, 2);
+            if with_instr {
+                // mostly on the last component (as every font compiler does), sometimes on another one
+                let j = if r.chance(3, 4) { k - 1 } else { r.below(k as u64) as usize };
+                comps[j].instr_flag = true;
+            }
+            let il = r.below(7) as usize;
+            let ins = r.bytes(il);
+            encode_composite(&comps, if with_instr && r.chance(7, 8) { Some(&ins) } else { None })
+        } else {
+            let npts = *r.pick(&[1usize, 2, 3, 4, 9, 30, 64, 65, 66, 130, 256, 257, 258, 300, 530]);
+            let il = *r.pick(&[0usize, 0, 1, 3, 10]);
+            let rep = r.chance(4, 5);
+            rand_simple(r, npts, il, rep)
+        };
+        match r.below(12) {
+            0 => rec.extend_from_slice(&[0, 0, 0][..r.range(1, 3) as usize]),
+            1 => rec.push(0),
+            2 => {
+                let k = r.below(rec.len() as u64 + 1) as usize;
+                rec.truncate(k);
+            }
+            3 => {
+                let k = r.below(rec.len() as u64) as usize;
+                rec[k] = r.next() as u8;
+            }
+            4 => {
+                let k = (rec.len() / 2 + r.below((rec.len() / 2) as u64 + 1) as usize).min(rec.len() - 1);
+                rec[k] = *r.pick(&[0xFFu8, 0x08, 0x00, 0x3F, 0xFE]);
+            }
+            5 => rec.extend_from_slice(&r.bytes(4)),
+            _ => {}
+        }
+        let flags = flag_combo(r);
+        let map: Vec<(u32, u32)> = if r.chance(2, 3) {
+            (0..12u32).map(|g| (g, *r.pick(&[g, g + 1, 3 * g, 0x1234, 0xFFFF]))).collect()
+        } else {
+            let mut m = vec![];
+            for g in 0..12u32 {
+                if r.chance(5, 6) {
+                    m.push((g, *r.pick(&[g, g + 1, 0x10005])));
+                }
+            }
+            m
+        };
+        one_record(s, &mut st, "unit:random", &rec, flags, &map);
+    }
+    // 3. every glyph record of the corpus fonts (identity-shifted glyph map: every component has an image)
+    let dir = "/repo/font-test-data/test_data/ttf";
+    let mut files: Vec<_> = std::fs::read_dir(dir).map(|d| d.filter_map(|e| e.ok()).map(|e| e.path()).collect()).unwrap_or_default();
+    files.sort();
+    let mut per_font = if th { 400 } else { 25 };
+    if th {
+        let mut more: Vec<_> = std::fs::read_dir("/repo/klippa/test-data/fonts").map(|d| d.filter_map(|e| e.ok()).map(|e| e.path()).collect()).unwrap_or_default();
+        more.sort();
+        files.extend(more);
+        per_font = 150;
+    }
+    for p in files {
+        if p.extension().and_then(|e| e.to_str()) != Some("ttf") {
+            continue;
+        }
+        let Ok(data) = std::fs::read(&p) else { continue };
+        let Ok(font) = FontRef::new(&data) else { continue };
+        let (Ok(loca), Ok(glyf)) = (font.loca(None), font.glyf()) else { continue };
+        let n = loca.len() as u32;
+        let label = format!("corpus:{}", p.file_name().unwrap().to_string_lossy());
+        let map: Vec<(u32, u32)> = (0..n.min(70000)).map(|g| (g, (g * 7 + 1) % 65536)).collect();
+        let step = (n as usize / per_font).max(1);
+        for gid in (0..n).step_by(step) {
+            let (Ok(a), Ok(b)) = (loca.get_raw(gid as usize).ok_or(()), loca.get_raw(gid as usize + 1).ok_or(())) else { continue };
+            let (a, b) = (a as usize, b as usize);
+            let bytes = glyf.offset_data().as_bytes();
+            if a >= b || b > bytes.len() {
+                continue;
+            }
+            let flags = *r.pick(&[0u16, F_NO_HINTING, F_SET_OVERLAPS, F_NO_HINTING | F_SET_OVERLAPS]);
+            one_record(s, &mut st, &format!("{label}#{gid}"), &bytes[a..b], flags, &map);
+        }
+    }
+    s.count(&format!("outline:records={}", st.n / 100 * 100));
+}
